@@ -14,7 +14,13 @@
             C16_paint_order_spec excludes this for well-formed trees,
           6 implementation = model = that specification, but the order of the
             fills and texts differs from Appendix E with CSS's own notion of
-            stacking context (overflow != visible does not form one).        *)
+            stacking context (overflow != visible does not form one),
+          8 one of the statements of Properties/C16.v that are proved only in part
+            (every event at most once, nothing of a box after its outline and
+            content after border, the events of a sub-tree all inside the
+            Push/Pop of its root) fails on the model's events of this tree,
+          7 everything agrees, but the tree is outside wf_shape, the hypothesis
+            of the theorems (informational: counted as skipped).            *)
 From Verif Require Export Draw.Stacking Draw.PaintSpec.
 From Coq Require Import List ZArith NArith Bool.
 Import ListNotations.
@@ -106,6 +112,64 @@ Definition strict_events (c : case) : list event :=
 Definition no_clip (e : event) : bool :=
   match e with Push EClip _ | Pop EClip _ => false | _ => true end.
 
+(* ---- the statements of Properties/C16.v that are not proved in full, as
+   boolean tests evaluated on the model's events of every case whose box ids
+   are unique (a failure refutes the statement: code 8) ---- *)
+Fixpoint mem_event (e : event) (l : list event) : bool :=
+  match l with [] => false | x :: r => event_eqb e x || mem_event e r end.
+Fixpoint nodup_events (l : list event) : bool :=
+  match l with [] => true | e :: r => negb (mem_event e r) && nodup_events r end.
+Fixpoint memN (x : N) (l : list N) : bool :=
+  match l with [] => false | y :: r => N.eqb x y || memN x r end.
+Fixpoint nodupN (l : list N) : bool :=
+  match l with [] => true | x :: r => negb (memN x r) && nodupN r end.
+Fixpoint all_ids (b : box) : list N := match b with Box i cs => bid i :: flat_map all_ids cs end.
+Fixpoint subtree_of (id : N) (b : box) : list N :=
+  match b with Box i cs => if N.eqb (bid i) id then all_ids b else flat_map (subtree_of id) cs end.
+Definition event_id (e : event) : N :=
+  match e with
+  | Bg id | Border id | Content id | Outline id | Push _ id | Pop _ id | TableLayers id | CanvasBg id => id
+  end.
+(* nothing of a box is painted after its outline; its content not before its border *)
+Fixpoint order_ok (l : list event) : bool :=
+  match l with
+  | [] => true
+  | Outline id :: r => negb (mem_event (Bg id) r) && negb (mem_event (Border id) r)
+                       && negb (mem_event (Content id) r) && order_ok r
+  | Content id :: r => negb (mem_event (Bg id) r) && negb (mem_event (Border id) r) && order_ok r
+  | _ :: r => order_ok r
+  end.
+(* the events of the sub-tree of id all lie between Push e id and its Pop *)
+Fixpoint upto_pop (e : effect) (id : N) (l : list event) : list event :=   (* the part after the Pop *)
+  match l with
+  | [] => []
+  | Pop e' id' :: r => if effect_eqb e e' && N.eqb id id' then r else upto_pop e id r
+  | _ :: r => upto_pop e id r
+  end.
+Fixpoint bracket_exact (roots : list box) (before l : list event) : bool :=
+  match l with
+  | [] => true
+  | Push e id :: r =>
+    let sub := flat_map (subtree_of id) roots in
+    let outside := before ++ upto_pop e id r in
+    (* overflow clips the content only: the box's own background / border / opacity group / transform and the
+       outlines (step 10) of its sub-tree are painted outside the clip *)
+    let allowed := fun x => match e, x with
+                            | EClip, Bg i | EClip, Border i | EClip, Push _ i | EClip, Pop _ i => N.eqb i id
+                            | EClip, Outline _ => true
+                            | _, _ => false
+                            end in
+    forallb (fun x => negb (memN (event_id x) sub) || allowed x) outside && bracket_exact roots (before ++ [Push e id]) r
+  | x :: r => bracket_exact roots (before ++ [x]) r
+  end.
+
+Definition statements_hold (pi : binfo) (canvas : N) (roots : list box) : bool :=
+  if negb (nodupN (bid pi :: flat_map all_ids roots)) then true
+  else match paint_page pi canvas roots with
+       | Ok evs => nodup_events evs && order_ok evs && bracket_exact roots [] evs
+       | _ => true
+       end.
+
 Definition check (c : case) : N :=
   match c with
   | CPage pi canvas roots crashed noclip impl =>
@@ -114,7 +178,9 @@ Definition check (c : case) : N :=
          | Ok evs => if crashed then 4%N
                      else if negb (events_eqb evs impl) then 1%N
                      else if negb (events_eqb (spec_events c) impl) then 5%N
+                     else if negb (statements_hold pi canvas roots) then 8%N
                      else if negb (events_eqb (strict_events c) (filter no_clip impl)) then 6%N
+                     else if negb (forallb wf_shape roots) then 7%N
                      else 0%N
          | _ => if crashed then 0%N else 3%N
          end
